@@ -16,6 +16,7 @@ package v1
 import (
 	"encoding/json"
 	"fmt"
+	"math"
 	"strconv"
 	"time"
 
@@ -64,6 +65,9 @@ func (b *BuilderConfig) UnmarshalJSON(input []byte) error {
 		}
 		if grace < 0 {
 			return errors.New("grace cannot be negative")
+		}
+		if grace > math.MaxInt64/int64(time.Millisecond) {
+			return errors.New("grace too large")
 		}
 		b.Grace = time.Duration(grace) * time.Millisecond
 	}
